@@ -292,13 +292,13 @@ PROPS["C12"] = dict(
     assumptions=["table built directly: 2 buckets, local id 0..0; bucket 0 holds one identity in an arbitrary state (coarse ages) and 7 free slots; "
                  "one name per response; at most one insertion per instance (F21/F22 cost)"],
     outside=["'receiving a query never adds its sender' and the routing of responses by action prefix: handler.rs:193-393 (F7)",
+             "the router-address clause: `routers` is a std HashSet, not tractable here even on concrete data (F4/F17, DESIGN.md 8.9); seeds C12-1 and C12-X1 are missed for that reason",
              "node lists longer than 1 name; names that make a bucket split"],
     harnesses=[
         H("c12_add_nodes_fresh_name", "table", Q, 1500, "standing of the stored node symbolic; name = a fresh identity", "one add_nodes; unwind 66", ["RoutingTable::add_nodes", "RoutingTable::add_node", "Bucket::add_node", "Node::as_questionable", "Node::update"]),
         H("c12_find_node_needs_id_and_address", "table", Q, 900, "concrete 2-bucket table with one stored questionable contact; lookups under a foreign address, a foreign id and its own handle",
           "concrete execution inside CBMC (no symbolic input): the clause has no input besides the handles", ["RoutingTable::find_node_mut", "Bucket::pingable_nodes_mut", "Node::remote_request"]),
         H("c12_add_nodes_own_id", "table", Q, 1500, "name = the local id", "one add_nodes", ["RoutingTable::add_nodes", "leading_bit_count"]),
-        H("c12_add_nodes_router_address", "table", T, 5000, "name = a router's address with a fresh id (routers = {addr})", "one add_nodes", ["RoutingTable::add_nodes"]),
         H("c12_add_nodes_existing_by_hearsay", "table", T, 2500, "name = the stored identity (arbitrary standing, incl. dropped as bad), responder = a fresh identity", "one add_nodes", ["RoutingTable::add_nodes", "Node::update"]),
         H("c12_add_nodes_alias_of_responder", "table", Q, 1500, "name = a fresh id on the responder's own address", "one add_nodes", ["RoutingTable::add_nodes"]),
         H("c19_from_bytes_length_gate", "transaction", Q, 300, "32 symbolic bytes; every prefix length 0..=32", "lengths enumerated", ["TransactionID::from_bytes"]),
